@@ -3,6 +3,7 @@ import os, re, json, fcntl, glob, shutil
 
 ID = "C20"
 PROPS = "Props/C20.v"
+GEN = ["conc"]      # Gen/ConcWriteSets.v: static write sets of the exported entry points, regenerated from the source
 # one driver, built twice: plainly (leg below: concurrent result == single-threaded result) and with -race (extra())
 LEGS = [{"driver": "c20", "runner": None, "timeout": 1500}]
 
@@ -14,17 +15,20 @@ TECHNIQUE = ("Coq proof about an access model of sharing (serialisability of rac
              "detector and by comparing every concurrent result with its single-threaded result")
 LEVEL_TEXT = ("Theorems in Coq (Props/C20.v): (1) for every program of lock-protected sections, free accesses and sync.Once calls in which every "
               "conflicting pair of accesses of different goroutines shares a mutex or is ordered by a Once, EVERY complete interleaving of micro-steps "
-              "ends in the state (store, each goroutine's reads) of executing the blocks sequentially; (2) the hand-written access table of gmsm "
+              "ends in the state (store, each goroutine's reads) of executing the blocks sequentially; (1') the same for nested locks and RWMutex "
+              "(shared readers), with regions as the sequential units; (2) the hand-written access table of gmsm "
               "(sm2/sm3/sm4/x509 package operations, shared Sm4Cipher, first use of the curve, CertPool reads, Config once/ticket keys/LRU cache, "
               "Conn Read/Write/Close) satisfies that hypothesis for every program built from its rows, SetSessionTicketKeys at any time included "
               "(finite check lifted; first use of a Config against rotation also swept step by step: the rotated keys are always kept); (3) the activeCall protocol of Conn.Write/Close for any number of "
               "calls and all schedules. Tie: `go build -race` of the scenario driver, 2..32 goroutines per row pair, fresh process per scenario.")
 LEVEL_NOTE = ("PARTIAL BY NATURE. The theorems carry the logic of sharing only: the Go scheduler, the Go memory model, preemption inside an "
               "access and the correspondence between the access table and the code are not proved. The table (coq/Conc/AccessTable.v) is written by "
-              "hand; it is validated per run by the race detector only on the interleavings that occur in that run. Nested lock acquisition is "
-              "modelled as one acquisition of the set; Conn.Handshake and handshakeComplete() are modelled as a sync.Once; renegotiation is outside. "
+              "hand; its write sets are tied to the current source statically (Gen/ConcWriteSets.v, theorem table_covers_source_writes; Conn and handshake "
+              "code are outside that tie) and it is validated per run by the race detector on the interleavings that occur. Locks are modelled where "
+              "the code takes them (nested, RWMutex with shared readers); the serialisability conclusion is at region level (accesses between two "
+              "synchronisation operations); Conn.Handshake and handshakeComplete() are modelled as a sync.Once; renegotiation is outside. "
               "sm4.IV (SetIV), x509.ContentEncryptionAlgorithm and CertPool construction are caller-synchronised: only concurrent reads are claimed. "
-              "The static go/ssa cross-check of write sets (DESIGN C20 tie (c)) is not built.")
+              "Static tie precision: field level, calls inside the analysed packages, known external mutators only (harness/cmd/gen/target_conc.go).")
 TRUSTED_BASE = [
     "access table coq/Conc/AccessTable.v written by hand from sm2/p256.go, sm4/sm4.go, x509/{ber,cert_pool,pkcs7,verify}.go, gmtls/{common,conn}.go",
     "Go race detector (ThreadSanitizer runtime of go1.23, CGO) observing the interleavings of this run only",
@@ -33,7 +37,7 @@ TRUSTED_BASE = [
 ]
 ASSUMPTIONS = [
     "an access to an abstract location is atomic in the model; weak-memory effects of unsynchronised accesses are outside (they are exactly what race-freedom excludes)",
-    "sync.Once is atomic for its callers; RWMutex readers are modelled as exclusive holders (sound for race-freedom)",
+    "sync.Once is atomic for its callers; sync.RWMutex: any number of Shared holders or one Excl holder, not re-entrant",
     "no renegotiation on the shared connection (default RenegotiateNever)",
     "package variables sm4.IV and x509.ContentEncryptionAlgorithm are not written while other goroutines use the packages",
 ]
